@@ -116,6 +116,7 @@ class Unit:
         returns_keys=None,
         assume_post_only=False,
         trusted=False,
+        region=None,
     ):
         self.name = name
         self.target = target
@@ -145,8 +146,10 @@ class Unit:
         self.returns = returns
         self.returns_keys = returns_keys  # result is a fresh dict with exactly these string keys
         self.trusted = trusted
+        self.region = region  # "body:<loopkey>" | "stmt:<loopkey>": the unit is a statement region
         REGISTRY[name] = self
-        BY_TARGET[target] = self
+        if region is None:
+            BY_TARGET[target] = self
 
     def clause_items(self):
         out = []
